@@ -189,6 +189,11 @@ SOLO_COMPOSITES = [
     L("enum_f64_payload", {"oneOf": [obj({"F": {"type": "number"}}, ["F"], additionalProperties=False), {"type": "string", "enum": ["U"]}]}),
     L("never", {"allOf": [{"type": "string"}, {"type": "integer"}]}, ff=False),
     L("newtype_f64", {"type": "number", "minimum": 0}),
+    # recursion through the definition the context names T (in non-definition contexts the cycle runs through the wrapper)
+    L("rec_opt", obj({"next": {"$ref": "#/definitions/T"}, "v": INT}, ["v"]), recursive=True),
+    L("rec_vec", obj({"kids": {"type": "array", "items": {"$ref": "#/definitions/T"}}, "v": INT}), recursive=True),
+    L("rec_nullable", obj({"next": {"oneOf": [{"$ref": "#/definitions/T"}, {"type": "null"}]}}), recursive=True),
+    L("rec_map", obj({"by": {"type": "object", "additionalProperties": {"$ref": "#/definitions/T"}}}), recursive=True),
     L("nested_opt_struct", obj({"o": obj({"i": obj({"x": INT}, ["x"])}, ["i"])})),
     L("struct_extra_member", obj({"extra": INT}, ["extra"], additionalProperties=STR), enf=False),
     L("vec_vec", {"type": "array", "items": {"type": "array", "items": INT}}),
@@ -258,6 +263,8 @@ def shapes_depth2(tier):
 
 def place(shape, ctx):
     """-> dict(id, doc, target, ff, enf) or None when the context cannot hold the shape."""
+    if shape.get("recursive") and ctx["id"] in ("root", "ref_alias", "ref_member", "ref_nullable", "allof1"):
+        return None   # these contexts do not define T as something the shape can sensibly recurse through
     if ctx["id"] in ("nullable_oneof", "ref_nullable"):
         from ..universe import _admits_null
         if _admits_null(shape["schema"], {}):
